@@ -117,7 +117,7 @@ func TestC07Reject(t *testing.T) {
 		bi := rapid.IntRange(0, len(s.c.Bindings)-1).Draw(t, "binding")
 		b := &s.c.Bindings[bi]
 		p := mrogen.FindParam(ins, b.Param)
-		kind := rapid.SampledFrom([]string{"wrong-literal", "wrong-literal", "wrong-literal", "unknown-param", "missing-param", "bad-output-ref", "bad-field-ref", "split-mismatch", "wrong-ref", "wrong-ref"}).Draw(t, "mutation")
+		kind := rapid.SampledFrom([]string{"wrong-literal", "wrong-literal", "wrong-literal", "unknown-param", "missing-param", "bad-output-ref", "bad-field-ref", "split-mismatch", "wrong-ref", "wrong-ref", "wrong-default-shorthand"}).Draw(t, "mutation")
 		switch kind {
 		case "wrong-literal":
 			e, n := wrongExpr(t, prog.U, p.T)
@@ -188,6 +188,44 @@ func TestC07Reject(t *testing.T) {
 			if prog.Top.Callee == s.pl.Name {
 				prog.Top.Bindings = append(prog.Top.Bindings, mrogen.Binding{Param: "zz_in", E: null})
 			}
+			kind += ":" + sub
+		case "wrong-default-shorthand":
+			// legacy shorthand "x = CALL" for "x = CALL.default": a new stage
+			// with one unnamed output whose type certainly cannot be
+			// converted to the parameter's type (float for int, bool / number
+			// confusion, wrong dimensions); the whole output struct
+			// {default: T'} is not assignable to such a parameter either.
+			if s.pl == nil {
+				return
+			}
+			if _, isSplit := b.E.(mrogen.Split); isSplit {
+				return
+			}
+			if p.T.Map > 0 || p.T.Base == "map" || prog.U.Struct(p.T.Base) != nil || prog.Stage(p.T.Base) != nil || prog.Pipeline(p.T.Base) != nil {
+				return // struct / map destinations take the whole output struct
+			}
+			var wt mrogen.Ty
+			sub := ""
+			switch {
+			case p.T.Base == "int":
+				wt, sub = mrogen.Ty{Base: "float", Arr: p.T.Arr}, "float-for-int"
+			case p.T.Base == "bool":
+				wt, sub = mrogen.Ty{Base: "int", Arr: p.T.Arr}, "int-for-bool"
+			case p.T.Base == "float":
+				wt, sub = mrogen.Ty{Base: "bool", Arr: p.T.Arr}, "bool-for-float"
+			default:
+				wt, sub = mrogen.Ty{Base: "int", Arr: p.T.Arr}, "int-for-string"
+			}
+			if rapid.IntRange(0, 3).Draw(t, "alsoDepth") == 0 {
+				wt = p.T
+				wt.Arr++
+				sub = "array-depth+1"
+			}
+			prog.Stages = append(prog.Stages, &mrogen.Stage{Name: "ZZ_DEF", Ins: []mrogen.Param{{Name: "p", T: mrogen.Ty{Base: "int"}}},
+				Outs: []mrogen.Param{{Name: "default", T: wt}}, SrcLang: "comp", SrcPath: "stagebin ZZ_DEF"})
+			zc := &mrogen.Call{Id: "ZZ_DEF", Callee: "ZZ_DEF", Bindings: []mrogen.Binding{{Param: "p", E: mrogen.Lit{V: json.Number("1"), T: mrogen.Ty{Base: "int"}}}}}
+			s.pl.Calls = append([]*mrogen.Call{zc}, s.pl.Calls...)
+			b.E = mrogen.Ref{Call: "ZZ_DEF"}
 			kind += ":" + sub
 		case "unknown-param":
 			b.Param = "zz_nope"
